@@ -95,6 +95,7 @@ type lexer struct {
 	p, pe, m int
 	id       string
 	mid      string // identifier at the marked position
+	depth    int    // nesting depth of the term or relation being parsed
 }
 
 // initialize/reset lexer with data string to lex
